@@ -105,6 +105,24 @@ def run(ctx):
             cid = "dir-" + name
             dcases[cid] = name
             loads.append({"id": cid, "ops": [{"op": "load", "dir": d}, {"op": "exists", "dir": d}]})
+        # a library of one layout next to stray pieces of the other layout is still that library
+        mixed = {}
+        for s_, extra in (("1.6.0", "empty-Database2-dir"), ("1.18.0 (OS)", "Database2-dir-with-other-file"), ("2.21.2", "stray-p.db"),
+                          ("2.18.0", "stray-unrelated-file")):
+            d = os.path.join(root, "mixed-" + extra)
+            shutil.copytree(tdirs[s_], d)
+            if extra == "empty-Database2-dir":
+                os.makedirs(os.path.join(d, "Database2"))
+            elif extra == "Database2-dir-with-other-file":
+                os.makedirs(os.path.join(d, "Database2"))
+                open(os.path.join(d, "Database2", "hm.db"), "w").write("x")
+            elif extra == "stray-p.db":
+                shutil.copy(os.path.join(tdirs["1.6.0"], "p.db"), os.path.join(d, "p.db"))
+            else:
+                open(os.path.join(d, "readme.txt"), "w").write("x")
+            cid = "mixed-" + extra
+            mixed[cid] = (s_, extra)
+            loads.append({"id": cid, "ops": [{"op": "load", "dir": d}, {"op": "exists", "dir": d}, {"op": "release_all"}]})
         slash = {}
         for s_ in TEMPLATES:
             cid = "slash-" + s_
@@ -112,6 +130,16 @@ def run(ctx):
             loads.append({"id": cid, "ops": [{"op": "load", "dir": tdirs[s_] + "/"}, {"op": "exists", "dir": tdirs[s_] + "/"}, {"op": "release_all"}]})
         results = {}
         runner.run_cases(loads, cfg="plain", on_result=lambda r: results.__setitem__(r.case["id"], r))
+        for cid, (s_, extra) in mixed.items():
+            r = results.pop(cid)
+            ctx.count()
+            ctx.bump_in("directory_cases", "library-plus-" + extra)
+            ev = r.events
+            if r.crash or not ev or "exc" in ev[0] or ev[0]["ret"]["version_name"] != s_ or ev[0]["ret"]["loaded_schema"] != s_:
+                got = (ev[0].get("ret") or ev[0].get("exc", {}).get("type")) if ev else None
+                ctx.violation(f"library-with-stray-files-not-loaded {extra}", f"a {s_} library next to {extra} loads as {got}", {"ops": r.case["ops"]})
+            elif ev[1].get("ret") is not True:
+                ctx.violation(f"library-with-stray-files-exists-false {extra}", f"database_exists() is false for a {s_} library next to {extra}", {"ops": r.case["ops"]})
         for cid, s_ in slash.items():
             r = results.pop(cid)
             ctx.count()
